@@ -225,6 +225,47 @@ pub fn run(thorough: bool) -> Report {
             }
         }
     }
+    // (7) arguments at the ends of the number line: the sign alone selects what RND does
+    {
+        // (argument text, sign: 1 = positive -> one step, -1 = negative -> refused, nothing moves)
+        let extremes: [(&str, i32); 7] = [("10^400", 1), ("10^308*10", 1), ("10^(0-323)", 1), ("1.7976931348623157*10^308", 1), ("0-10^400", -1), ("0-10^(0-323)", -1), ("4294967296*4294967296", 1)];
+        for seed in [1u64, 1 << 44] {
+            for order in 0..extremes.len() {
+                let mut s = Sess::new();
+                let _ = s.apply(&Ev::Randomize(seed));
+                let mut hist = vec![Ev::Randomize(seed)];
+                let mut m = seed % LCG_M;
+                for k in 0..extremes.len() {
+                    let (arg, sign) = extremes[(order + k) % extremes.len()];
+                    let line = format!("PRINT RND({})", arg);
+                    s.recs.clear();
+                    let r = s.apply(&Ev::Line(line.clone()));
+                    hist.push(Ev::Line(line.clone()));
+                    let after = s.it.verif_snapshot().rng_state;
+                    let problem = if sign > 0 {
+                        m = lcg_next(m);
+                        if r != CallResult::Ok || s.printed() != format!("{}\n", lcg_value(m)) || after != m {
+                            Some(format!("{:?}, printed {:?}, generator state {}; one step of the documented sequence gives {} and state {}", r, s.printed(), after, lcg_value(m), m))
+                        } else {
+                            None
+                        }
+                    } else if matches!(r, CallResult::Ok) || after != m {
+                        Some(format!("{:?}, generator state {} (it was {}): a negative argument is refused and moves nothing", r, after, m))
+                    } else {
+                        None
+                    };
+                    if let Some(p) = problem {
+                        rep.add(Violation {
+                            signature: format!("extreme argument {}", arg),
+                            detail: format!("seed {}: {}: {}", seed, line, p),
+                            case: case_history(&hist, false, false),
+                        });
+                        break;
+                    }
+                }
+            }
+        }
+    }
     let disp_seeds: [u64; 5] = [0, 1, (1 << 33) - 1, 1 << 44, u64::MAX];
     let maxlen = 6;
     let mut seqs: Vec<Vec<usize>> = vec![];
